@@ -70,3 +70,8 @@ CORPUS += [
     M("fan-handler-wrong-exception", D, "                except ValueError:\n                    self._fan_speed = cast(int, res.fan_speed)", "                except TypeError:\n                    self._fan_speed = cast(int, res.fan_speed)"),
     M("n-fan-handler-wider", D, "                except ValueError:\n                    self._fan_speed = cast(int, res.fan_speed)", "                except (ValueError, TypeError):\n                    self._fan_speed = cast(int, res.fan_speed)", "S"),
 ]
+# round 7 (C11.e): the constructor parses every payload of reportable length
+CORPUS += [
+    M("constructor-min-length-17", C, "        self.independent_aux_heat = None\n\n        self._parse(payload)", "        self.independent_aux_heat = None\n\n        if len(payload) < 17:\n            raise InvalidResponseException(\"truncated\")\n        self._parse(payload)"),
+    M("n-constructor-min-length-16", C, "        self.independent_aux_heat = None\n\n        self._parse(payload)", "        self.independent_aux_heat = None\n\n        if len(payload) < 16:\n            raise InvalidResponseException(\"truncated\")\n        self._parse(payload)", "S"),
+]
